@@ -425,7 +425,10 @@ def rule_revalidate(ctx: Ctx) -> None:
             d = Defs(f)
             for r in [r for r in walk_no_nested(f.node) if isinstance(r, ast.Return) and r.value is not None]:
                 t = norm(d.resolve(r.value))
-                ctx.tri("7-revalidate", f, r, t.startswith(("MapSpec(", "ArraySpec(", "type(self)(", "self.__class__(")) or t == "self", any(w in t for w in ("__new__", "copy.copy(", "replace(")),
+                # dataclasses.replace() builds the copy through __init__ (and so __post_init__): it revalidates
+                dc_replace = t.startswith("dataclasses.replace(") or (t.startswith("replace(") and any(
+                    isinstance(i_, ast.ImportFrom) and i_.module == "dataclasses" and any(a_.name == "replace" and a_.asname is None for a_ in i_.names) for i_ in ast.walk(f.module.tree)))
+                ctx.tri("7-revalidate", f, r, t.startswith(("MapSpec(", "ArraySpec(", "type(self)(", "self.__class__(")) or t == "self" or dc_replace, any(w in t for w in ("__new__", "copy.copy(")),
                         "returns through the validating constructor", f"`{t[:50]}` bypasses the constructor", f"return `{t[:40]}` not recognised", key=f"{cls.name}.{nm} returns")
     bypass = []
     for m in P.modules.values():
